@@ -71,11 +71,17 @@ def finite(v):
     return isinstance(v, (int, float)) and math.isfinite(v)
 
 
+_SCRIBBLE = False      # inside a call sequence: the caller overwrites every RETURNED array after reading it
+
+
 def canon(v):
     """numpy scalar / array -> python float / (nested) list of floats"""
     import numpy as np
     if isinstance(v, np.ndarray):
-        return [canon(x) for x in v] if v.ndim else float(v)
+        out = [canon(x) for x in v] if v.ndim else float(v)
+        if _SCRIBBLE and v.ndim and v.flags.writeable:
+            v[...] = 7 if v.dtype.kind in "iu" else 7.0e77      # results must not be shared with later calls
+        return out
     if isinstance(v, (list, tuple)):
         return [canon(x) for x in v]
     return float(v)
@@ -90,6 +96,20 @@ def guarded(f):
     if r[0] == "ok" and not _all_finite(r[1]):
         return ("err", "EOther", "non-finite output %r" % (r[1],))
     return r
+
+
+def mod_list(n, a, b, m, off):
+    """the list Exec.mod_list computes: x_i = ((a*i + b) mod m) - off"""
+    return [float(((a * i + b) % m) - off) for i in range(n)]
+
+
+def big(c, k, printer):
+    """Coq term of argument k: large arguments are given by their formula c["formula"][k] = [n, a, b, m, off]"""
+    f = (c.get("formula") or {}).get(k)
+    if f is None:
+        return printer(c[k])
+    t = "(mod_list %d%%nat %s %s %s %s)" % (f[0], cz(f[1]), cz(f[2]), cz(f[3]), cz(f[4]))
+    return "(V1 %s)" % t if printer is nd else t
 
 
 def _nf_cols(vals, ncol):
@@ -238,10 +258,11 @@ def A(c, k):
 
 def run_impl(ent, c):
     """the call of case c, preceded (same process, same argument objects) by the calls of its history"""
-    global _ARENA
+    global _ARENA, _SCRIBBLE
     if not c.get("hist"):
         return ent.impl(c)
     _ARENA = {}
+    _SCRIBBLE = True
     try:
         for h in c["hist"]:
             if h.get("fresh"):
@@ -252,6 +273,7 @@ def run_impl(ent, c):
         return ent.impl(c)
     finally:
         _ARENA = None
+        _SCRIBBLE = False
 
 
 def _same_out(a, b):
@@ -481,6 +503,10 @@ class WMom(E):
                            "calcerr": ce, "sdev": True, "family": "undefined:zero-weight-column"})
                 cs.append({"x": [[3.0, 1.0], [4.5, 2.0], [6.0, 4.0]], "w": [0.0, 0.0, 0.0], "im": None,
                            "calcerr": ce, "sdev": False, "family": "undefined:all-zero-weights"})
+            nbig = 2 ** 16 + 3          # more than 2^16 elements: blocked / pairwise reductions with a remainder
+            fx, fw = [nbig, 7919, 13, 101, 50], [nbig, 31, 5, 8, 0]
+            cs.append({"x": mod_list(*fx), "w": mod_list(*fw), "formula": {"x": fx, "w": fw}, "im": None, "calcerr": True, "sdev": True,
+                       "ct": {"x": r.choice(["f8", "i4", "f4"]), "w": "f8"}, "family": "large(>2^16)"})
             cs.append({"x": 5.0, "w": 2.0, "im": None, "calcerr": True, "sdev": True, "ct": {"x": "scalar", "w": "scalar"},
                        "family": "scalar-input"})
             cs.append({"x": 5.0, "w": 2.0, "im": 4.5, "calcerr": True, "sdev": True, "ct": {"x": "0d", "w": "0d"},
@@ -521,11 +547,12 @@ class WMom(E):
             return "(%s, %s, %s)" % (nd(o[0]), nd(o[1]), opt(o[2] if len(o) > 2 else None, nd))
         # float32 data minus a python-float mean is evaluated in float32 by numpy
         f4 = ct_of(c, "x") == "f4" and c["im"] is not None and not isinstance(c["im"], list)
+        X, W = big(c, "x", nd), big(c, "w", nd)
         if out[0] == "ok" and out[1][0] is None:
-            return "v_wmom_undef %s %s %s" % (nd(c["x"]), nd(c["w"]), cbools(out[1][1]))
-        t = "%s %s %s %s %s %s %s" % ("v_wmom_e eps_f4" if f4 else "v_wmom", nd(c["x"]), nd(c["w"]), self._im(c["im"]),
+            return "v_wmom_undef %s %s %s" % (X, W, cbools(out[1][1]))
+        t = "%s %s %s %s %s %s %s" % ("v_wmom_e eps_f4" if f4 else "v_wmom", X, W, self._im(c["im"]),
                                       cbool(c["calcerr"]), cbool(c["sdev"]), cres(out, pout))
-        return "wmom_guard %s %s (%s)" % (nd(c["x"]), nd(c["w"]), t) if _has_zero_weight(c["w"]) else t
+        return "wmom_guard %s %s (%s)" % (X, W, t) if _has_zero_weight(c["w"]) else t
 
     def nontrivial(self, c, out):
         x = c["x"]
@@ -691,9 +718,12 @@ class SigmaClip(E):
                     raise RuntimeError("extra['indices'] differs from the returned indices")
             else:
                 m, s, e, idx = res
+            idxl = [int(i) for i in idx]
+            if _SCRIBBLE and isinstance(idx, np.ndarray) and idx.flags.writeable:
+                idx[...] = 7
             if not all(math.isfinite(float(t)) for t in (m, s, e)):
-                return [None, None, None, [int(i) for i in idx]]      # statistics that do not exist
-            return [float(m), float(s), float(e), [int(i) for i in idx]]
+                return [None, None, None, idxl]      # statistics that do not exist
+            return [float(m), float(s), float(e), idxl]
         return guarded(f)
 
     def term(self, c, out):
@@ -815,9 +845,10 @@ class InterpLin(E):
             cs.append({"v": [1.0, 3.0, 2.0], "x": [0.0, 1.0, 2.0], "u": [], "family": "no-queries"})
             cs.append({"v": [1.0, 3.0, 2.0], "x": [0.0, 1.0, 2.0], "u": 0.5, "ct": {"u": "scalar"}, "family": "scalar-query"})
             cs.append({"v": [1.0, 3.0, 2.0], "x": [-1.0, 0.0, 2.0], "u": [0.0, -0.0, -1.0, 2.0], "family": "zero-node"})
-            cs.append({"v": [0.0, 0.0, 0.0], "x": [-1.0, 0.0, 2.0], "u": [0.5, -3.0, 7.0], "family": "zero-values"})
-            cs.append({"v": [1.0, 9.0, 4.0, 16.0], "x": [0.0, 3.0, 4.0, 8.0], "u": [-2.0, 1.0, 4.0, 7.0, 11.0],
-                       "ct": {"v": "i8", "x": "i4", "u": "i8"}, "family": "int-arrays"})
+            nbig = 2 ** 16 + 1
+            fx, fv = [nbig, 3, 0, 10 ** 9, 1000], [nbig, 7919, 3, 19, 9]
+            cs.append({"v": mod_list(*fv), "x": mod_list(*fx), "formula": {"x": fx, "v": fv},
+                       "u": [-2000.5, -1000.0, 0.0, 1.5, 98301.25, 3.0 * (nbig - 1) - 1000.0, 3.0e5], "family": "large(>2^16)"})
         return cs
 
     def impl(self, c):
@@ -828,7 +859,7 @@ class InterpLin(E):
     def term(self, c, out):
         # differences of float32 table entries are evaluated in float32
         f4 = "f4" in (ct_of(c, "v"), ct_of(c, "x"))
-        return "%s %s %s %s %s" % ("v_interplin_e eps_f4" if f4 else "v_interplin", qs(c["v"]), qs(c["x"]), qs(_l(c["u"])), cres(out, qs))
+        return "%s %s %s %s %s" % ("v_interplin_e eps_f4" if f4 else "v_interplin", big(c, "v", qs), big(c, "x", qs), qs(_l(c["u"])), cres(out, qs))
 
     def nontrivial(self, c, out):
         x, u = c["x"], _l(c["u"])
@@ -873,6 +904,9 @@ class GetStats(E):
         if round == 0:
             cs.append({"x": [[1.0, 2.0], [3.0, 5.0]], "w": None, "nsig": 3.0, "niter": None, "family": "rejected-2d-clip"})
             cs.append({"x": 5.0, "w": None, "nsig": None, "niter": None, "ct": {"x": "scalar"}, "family": "scalar-input"})
+            fx = [2 ** 16 + 5, 7919, 13, 101, 50]
+            cs.append({"x": mod_list(*fx), "formula": {"x": fx}, "w": None, "nsig": None, "niter": None,
+                       "ct": {"x": r.choice(["f8", "i8"])}, "family": "large(>2^16)"})
             # statistics that do not exist
             cs.append({"x": [1.0, 2.0, 3.0], "w": [0.0, 0.0, 0.0], "nsig": None, "niter": None, "family": "undefined:all-zero-weights"})
             cs.append({"x": [1.0, 2.0, 3.0], "w": [0.0, 0.0, 0.0], "nsig": None, "niter": None, "calcerr": False,
@@ -918,7 +952,7 @@ class GetStats(E):
         return guarded(f)
 
     def term(self, c, out):
-        a4 = "%s %s %s %s" % (nd(c["x"]), opt(c["w"], nd), opt(c["nsig"], q1), opt(c["niter"], cz))
+        a4 = "%s %s %s %s" % (big(c, "x", nd), opt(c["w"], nd), opt(c["nsig"], q1), opt(c["niter"], cz))
         if out[0] == "ok" and out[1][0] is None:
             return "v_get_stats_undef %s %s %s" % (a4, cbools(out[1][1]), clist(out[1][2]))
         t = "v_get_stats_kw %s %s %s" % (
